@@ -83,7 +83,8 @@ def write(path, obj=None, raw=None):
 
 
 ROOT_ROWS = ["accept", "version", "old_rule", "new_rule", "type", "new_malformed", "no_root_delegation", "trusted_malformed", "accept"]
-DELEG_KINDS = ["ok", "below", "wrongkey", "type_mismatch", "unknown_role", "junk", "edited", "ok"]
+DELEG_KINDS = ["ok", "below", "wrongkey", "type_mismatch", "unknown_role", "junk", "edited", "ok", "signatures_list", "trusted_not_delegating",
+               "trusted_malformed", "untrusted_extra_envelope_field"]
 CROSS = ["root_under_nonroot_with_root_role", "keymgr_under_keymgr", "root_raw_signed_under_root"]
 MALFORMED = ["untrusted_not_json", "trusted_not_json", "untrusted_list", "untrusted_scalar", "no_signed", "no_type", "type_not_str",
              "missing_untrusted", "missing_trusted", "empty_file", "swapped", "trusted_is_payload"]
@@ -129,6 +130,15 @@ def gen_pair(rng, cls=None):
         if kind == "edited":
             if isinstance(env["signed"], dict):
                 env["signed"]["edited"] = 1
+        # format errors on a NON-root untrusted file: the library rejects with TypeError/ValueError
+        if kind == "signatures_list":
+            env["signatures"] = [{"keyid": k, "sig": v.get("signature")} for k, v in env["signatures"].items()]
+        if kind == "trusted_not_delegating":
+            trusted = {"info": {"subdir": "linux-64"}, "packages": {}, "signatures": {}, "signed": {"x": 1}}
+        if kind == "trusted_malformed":
+            trusted = rootchain.malform(trusted, rng.choice(["del_expiration", "threshold_0", "dup_key", "extra_envelope_field", "version_0"]), rng)
+        if kind == "untrusted_extra_envelope_field":
+            env["extra"] = 1
         return "deleg:%s:%s" % (utype, kind), json.dumps(trusted).encode(), json.dumps(env).encode()
     if r < 0.86:
         # cross-type pairs: the dispatch is decided by the UNTRUSTED file's declared type alone
